@@ -1068,7 +1068,9 @@ impl Transaction {
                 return false;
             }
 
-            return true;
+            // staking transactions are created and signed by a user like any other
+            // transaction, so the sender / signature / ownership / amount checks
+            // below apply to them too
         }
 
         //
